@@ -42,6 +42,8 @@ pub enum Call {
     /// stopped, nothing is requested, and the bar keeps redrawing on its own afterwards
     SteadyZero,
     SteadyOff,
+    /// MultiProgress targets: finish and drop the next of six members that render nothing
+    DropDecoy,
 }
 
 #[derive(Debug, Clone, Serialize, Deserialize)]
@@ -93,17 +95,31 @@ fn run_rate(c: &RateCase) -> CaseResult {
     let mk = |tag: &'static str| -> ProgressStyle { ProgressStyle::with_template(&format!("{tag} {{pos}}|{{len}}|{{msg}}")).unwrap() };
     let mut mp = None;
     let mut bars: Vec<Bar> = vec![];
+    let mut decoys: Vec<Option<ProgressBar>> = vec![];
+    let mut decoy_step = 0usize;
     let len0: u64 = if c.full { 0 } else { 100 };
-    if c.mode % 3 == 0 {
+    if c.mode % 4 == 0 {
         let pb = ProgressBar::with_draw_target(Some(len0), target).with_message("m0");
         pb.set_style(mk("A"));
         bars.push(Bar { pb, tag: "A", pos: 0, len: len0, msg: 0 });
     } else {
-        let m = MultiProgress::with_draw_target(target);
+        // (mode 3: the MultiProgress is created hidden, gets its members, and is given the terminal afterwards)
+        let mut target = Some(target);
+        let m = if c.mode % 4 == 3 { MultiProgress::with_draw_target(ProgressDrawTarget::hidden()) } else { MultiProgress::with_draw_target(target.take().unwrap()) };
+        // members that render nothing, in front of the others: Call::DropDecoy finishes and drops them so that
+        // dropped-but-still-listed members wait at the head of the list while ordinary requests arrive
+        for _ in 0..6 {
+            let d = m.add(ProgressBar::with_draw_target(Some(1), ProgressDrawTarget::hidden()).with_finish(indicatif::ProgressFinish::AndLeave));
+            d.set_style(ProgressStyle::with_template("").unwrap());
+            decoys.push(Some(d));
+        }
         for tag in ["A", "B"] {
             let pb = m.add(ProgressBar::with_draw_target(Some(len0), ProgressDrawTarget::hidden()).with_message("m0"));
             pb.set_style(mk(tag));
             bars.push(Bar { pb, tag, pos: 0, len: len0, msg: 0 });
+        }
+        if let Some(t) = target.take() {
+            m.set_draw_target(t);
         }
         mp = Some(m);
     }
@@ -126,9 +142,21 @@ fn run_rate(c: &RateCase) -> CaseResult {
         if let Gap::KInterval(k, _) = gap {
             near_multiple |= *k % 25 > 0;
         }
-        let bi = if c.mode % 3 == 2 { i % 2 } else { 0 };
+        let bi = if c.mode % 4 == 2 { i % 2 } else { 0 };
         let call = &if c.full && matches!(call, Call::Inc | Call::SetPosition | Call::Dec | Call::SetLength | Call::Update) { Call::SetSameLength } else { *call };
         let before = vt.nflush();
+        if matches!(call, Call::DropDecoy) {
+            // order 1, 0, 3, 2, 5, 4: first the lower one of a pair (it stays listed behind the head), then the head
+            let order = [1usize, 0, 3, 2, 5, 4];
+            if let Some(d) = decoys.get_mut(*order.get(decoy_step).unwrap_or(&usize::MAX)).and_then(|d| d.take()) {
+                decoy_step += 1;
+                d.finish();
+                drop(d);
+                v.label("dropped_member_waits_at_the_head_of_the_list");
+            }
+            // (finish and drop force their own frames: not ordinary requests, not counted)
+            continue;
+        }
         if matches!(call, Call::SteadyZero | Call::SteadyOff) {
             match call {
                 Call::SteadyZero => bars[bi].pb.enable_steady_tick(std::time::Duration::ZERO),
@@ -141,7 +169,7 @@ fn run_rate(c: &RateCase) -> CaseResult {
         {
             let b = &mut bars[bi];
             match call {
-                Call::SteadyZero | Call::SteadyOff => unreachable!(),
+                Call::SteadyZero | Call::SteadyOff | Call::DropDecoy => unreachable!(),
                 Call::Update => {
                     b.pos += 3;
                     let p = b.pos;
@@ -185,7 +213,7 @@ fn run_rate(c: &RateCase) -> CaseResult {
         } else {
             acceptable[bi] = vec![bars[bi].line()];
         }
-        let ctx = format!("call #{i} {call:?} at t={now} ns (gap {g} ns, rate {r}/s, mode {})", c.mode % 3);
+        let ctx = format!("call #{i} {call:?} at t={now} ns (gap {g} ns, rate {r}/s, mode {})", c.mode % 4);
         // staleness: a request one refresh interval after the last painted frame is painted
         let is_pos = matches!(call, Call::Inc | Call::SetPosition | Call::Dec | Call::IncZero);
         let due = match last_paint {
@@ -225,7 +253,7 @@ fn run_rate(c: &RateCase) -> CaseResult {
         } else {
             skipped += 1;
             // a throttled bar inside a MultiProgress has still made a draw attempt
-            drawn[bi] = drawn[bi] || c.mode % 3 != 0;
+            drawn[bi] = drawn[bi] || c.mode % 4 != 0;
         }
     }
     drop(bars);
@@ -235,7 +263,7 @@ fn run_rate(c: &RateCase) -> CaseResult {
     v.label_if(painted_n > 20, "burst_exhausted");
     v.label_if(near_multiple, "gap_at_interval_multiple");
     v.label_if(c.calls.iter().any(|(g, _)| matches!(g, Gap::Hours(_) | Gap::Secs(_))), "refill_after_long_gap");
-    v.label_if(c.mode % 3 != 0, "multi_progress_target");
+    v.label_if(c.mode % 4 != 0, "multi_progress_target");
     v.label_if(c.full, "bar_complete_the_whole_time");
     Ok(v)
 }
@@ -259,15 +287,15 @@ fn rate_strategy(tier: Tier) -> BoxedStrategy<RateCase> {
     let n = tier.pick(400, 2000);
     let call = prop_oneof![4 => Just(Call::Tick), 2 => Just(Call::SetMessage), 1 => Just(Call::SetLength), 1 => Just(Call::SetSameLength), 3 => Just(Call::Inc), 1 => Just(Call::SetPosition), 1 => Just(Call::Dec)];
     let rate = || prop_oneof![2 => prop_oneof![Just(1u8), Just(3), Just(7), Just(20), Just(30), Just(60), Just(255)], 1 => 1u8..=255];
-    let call = prop_oneof![28 => call, 2 => Just(Call::IncZero), 3 => Just(Call::Update), 1 => Just(Call::SteadyZero), 1 => Just(Call::SteadyOff)];
-    let free = (rate(), 0u8..3, proptest::collection::vec((gap_strategy(), call.clone()), 30..n), proptest::bool::weighted(0.15)).prop_map(|(rate, mode, calls, full)| RateCase { full, rate, mode, calls });
+    let call = prop_oneof![28 => call, 2 => Just(Call::IncZero), 3 => Just(Call::Update), 1 => Just(Call::SteadyZero), 1 => Just(Call::SteadyOff), 1 => Just(Call::DropDecoy)];
+    let free = (rate(), 0u8..4, proptest::collection::vec((gap_strategy(), call.clone()), 30..n), proptest::bool::weighted(0.15)).prop_map(|(rate, mode, calls, full)| RateCase { full, rate, mode, calls });
     // the burst is used up at the creation instant, then requests arrive exactly at, one ns before and
     // one ns after whole refresh intervals (the boundary of "at least one refresh interval after the
     // last painted frame"), then anything
     let edge = (0u8..3, -1i8..=1).prop_map(|(k, d)| Gap::KInterval(k + 1, d));
     let boundary = (
         rate(),
-        0u8..3,
+        0u8..4,
         20usize..24,
         proptest::collection::vec((edge, prop_oneof![Just(Call::Tick), Just(Call::SetMessage), Just(Call::SetLength), Just(Call::SetSameLength)]), 5..60),
         proptest::collection::vec((gap_strategy(), call), 0..60),
@@ -283,7 +311,7 @@ fn rate_strategy(tier: Tier) -> BoxedStrategy<RateCase> {
 
 fn decode_rate(u: &mut FuzzInput) -> RateCase {
     let rate = if u.n(2) == 0 { 1 + u.n(254) as u8 } else { [1u8, 3, 7, 20, 30, 60, 255][u.n(6)] };
-    let mode = u.n(2) as u8;
+    let mode = u.n(3) as u8;
     let mut calls = vec![];
     // optionally use up the burst first
     if u.n(2) == 0 {
@@ -300,7 +328,7 @@ fn decode_rate(u: &mut FuzzInput) -> RateCase {
             14 => Gap::Secs(u.u16()),
             _ => Gap::Hours(u.u8()),
         };
-        let call = [Call::Tick, Call::Tick, Call::SetMessage, Call::SetLength, Call::SetSameLength, Call::Inc, Call::Inc, Call::SetPosition, Call::Dec, Call::IncZero, Call::Update, Call::Update, Call::SteadyZero, Call::SteadyOff][u.n(13)];
+        let call = [Call::Tick, Call::Tick, Call::SetMessage, Call::SetLength, Call::SetSameLength, Call::Inc, Call::Inc, Call::SetPosition, Call::Dec, Call::IncZero, Call::Update, Call::Update, Call::SteadyZero, Call::SteadyOff, Call::DropDecoy][u.n(14)];
         calls.push((gap, call));
     }
     RateCase { full: u.n(6) == 0, rate, mode, calls }
@@ -571,7 +599,7 @@ pub fn property() -> Property {
         parts: vec![
             Box::new(Gen::<RateCase> {
                 name: "frames",
-                rule: "refresh rate from {1,3,7,20,30,60,255} or 1..=255; standalone term_like_with_hz, first bar of a MultiProgress, or two bars of a MultiProgress alternating; 30-400 (thorough 2000) ordinary requests (tick/set_message/set_length/inc/inc(0)/set_position/dec/update(set_pos) with monotone payloads; enable_steady_tick(0) and disable_steady_tick() without a ticker interleaved as calls that request nothing) at gaps from {0, ns, <1 ms, k*interval +-1 ns for k<25, interval/2, ms, s, hours}; window law via the running minimum of k*1e9 - R*t_k, staleness law per request, every painted frame compared with the latest state of all drawn bars; non-trivial = skipped and painted draws and a gap at an interval multiple",
+                rule: "refresh rate from {1,3,7,20,30,60,255} or 1..=255; standalone term_like_with_hz, first bar of a MultiProgress, two bars of a MultiProgress alternating, or a MultiProgress that is created hidden and given the terminal after its members were added (six further members that render nothing are finished and dropped on request, so that dropped-but-listed members reach the head of the list while ordinary requests arrive); 30-400 (thorough 2000) ordinary requests (tick/set_message/set_length/inc/inc(0)/set_position/dec/update(set_pos) with monotone payloads; enable_steady_tick(0) and disable_steady_tick() without a ticker interleaved as calls that request nothing) at gaps from {0, ns, <1 ms, k*interval +-1 ns for k<25, interval/2, ms, s, hours}; window law via the running minimum of k*1e9 - R*t_k, staleness law per request, every painted frame compared with the latest state of all drawn bars; non-trivial = skipped and painted draws and a gap at an interval multiple",
                 strategy: rate_strategy,
                 cases: |t| t.pick(1_500, 48_000),
                 run: run_rate,
